@@ -514,7 +514,7 @@ def scenario_paths(g, scenario, start=None, limit=3000, skip_labels=('exc',)):
     return out
 
 
-def dict_contents_at(g, node, var, scenario, limit=4000):
+def dict_contents_at(g, node, var, scenario, limit=4000, fi=None):
     """possible contents {key: value text} of the local dict *var* when control reaches *node*, for the truth assignment
     *scenario* (atom text of lib.atom_key -> bool; tests over other atoms are explored both ways).  Understood writes:
     `var = {...}` / `var = dict(k=v, ...)`, `var[k] = v`, `var.update({...})`, `var.setdefault(k, v)`, `del var[k]` / `var.pop(k)`.
@@ -522,6 +522,26 @@ def dict_contents_at(g, node, var, scenario, limit=4000):
     outs = []
     seen = set()
     bad = [False]
+    amap = aliases_of(fi).map if fi is not None else {}
+
+    def rtext(e):
+        # the value / condition with single-assignment locals that merely hold an access path (echo = self.echo) written out
+        t = norm(e)
+        if isinstance(e, ast.Name) and e.id in amap:
+            return amap[e.id]
+        return t
+
+    def ralias(e):
+        if not amap:
+            return e
+        from .linear import clone
+
+        class T(ast.NodeTransformer):
+            def visit_Name(self, n):
+                if isinstance(n.ctx, ast.Load) and n.id in amap:
+                    return ast.parse(amap[n.id], mode='eval').body
+                return n
+        return T().visit(clone(e))
 
     def apply(n, d):
         a = n.ast
@@ -532,9 +552,9 @@ def dict_contents_at(g, node, var, scenario, limit=4000):
                 if isinstance(tg, ast.Name) and tg.id == var:
                     v = a.value
                     if isinstance(v, ast.Dict) and all(isinstance(k_, ast.Constant) for k_ in v.keys):
-                        return dict((k_.value, norm(x)) for k_, x in zip(v.keys, v.values))
+                        return dict((k_.value, rtext(x)) for k_, x in zip(v.keys, v.values))
                     if isinstance(v, ast.Call) and isinstance(v.func, ast.Name) and v.func.id == 'dict' and not v.args and all(k_.arg for k_ in v.keywords):
-                        return dict((k_.arg, norm(k_.value)) for k_ in v.keywords)
+                        return dict((k_.arg, rtext(k_.value)) for k_ in v.keywords)
                     # a copy of another mapping (dict(other), dict(other, k=v), other.copy()): its entries are carried as '**other'
                     if isinstance(v, ast.Call) and isinstance(v.func, ast.Name) and v.func.id == 'dict' and len(v.args) == 1 and isinstance(v.args[0], ast.Name) \
                             and all(k_.arg for k_ in v.keywords):
@@ -550,7 +570,7 @@ def dict_contents_at(g, node, var, scenario, limit=4000):
                 if isinstance(tg, ast.Subscript) and is_name(tg.value, var):
                     if isinstance(tg.slice, ast.Constant):
                         d = dict(d)
-                        d[tg.slice.value] = norm(a.value)
+                        d[tg.slice.value] = rtext(a.value)
                         return d
                     bad[0] = True
         elif isinstance(a, ast.Expr) and isinstance(a.value, ast.Call) and isinstance(a.value.func, ast.Attribute) and is_name(a.value.func.value, var):
@@ -592,7 +612,7 @@ def dict_contents_at(g, node, var, scenario, limit=4000):
             else:
                 r = True if any(x is True for x in rs) else (False if all(x is False for x in rs) else None)
         else:
-            a_, v_ = atom_key(co, True)
+            a_, v_ = atom_key(ralias(co), True)
             r = None if a_ not in scenario else (scenario[a_] == v_)
         if r is None:
             return None
